@@ -18,6 +18,22 @@ AtomsMid4 == AtomsMid3 \cup {Atom("str", <<104, 105>>)}
 AtomsDeep2 == {Atom("bool", <<1>>), Atom("bytes", <<1, 2>>)}
 ReplQ == {0, 1, 3, 16, 255}
 ReplT == {0, 1, 2, 3, 5, 6, 16, 17, 255}
+\* histories: values of different encoded lengths (2, 5, 7, 17, 21, 33 bytes; lists of 7 / 40 / 12 bytes), so that a
+\* recycled buffer is overwritten partly, exactly and beyond the length of an encoding still held
+HBool == Atom("bool", <<1>>)
+HBytes == Atom("bytes", <<1, 2>>)
+HStr == Atom("str", <<104, 105>>)
+HInt == Atom("int", Rep(255, 15) \o <<127>>)
+HAddr == Atom("addr", [i \in 1..20 |-> i])
+HHash == Atom("h256", [i \in 1..32 |-> 32 - i])
+HL1 == List(<<HBool>>)
+HL2 == List(<<HStr, List(<<HAddr, HInt>>), HBool>>)
+HL3 == List(<<HBytes>>)
+HistQ == {HBool, HStr, HInt, HHash, HL1, HL2}
+HistT == {HBool, HBytes, HStr, HInt, HAddr, HL1, HL2, HL3, List(<<>>)}
+ParQ == {HStr, HL2}
+HEdge == PrintT(<<"EDGE", ToJson([from |-> HState, act |-> act', to |-> HState'])>>)
+HInitOut == (TLCGet("level") = 1) => PrintT(<<"INIT", ToJson(HState)>>)
 Edge == PrintT(<<"EDGE", ToJson([from |-> State, act |-> act', to |-> State'])>>)
 InitOut == (TLCGet("level") = 1) => PrintT(<<"INIT", ToJson(State)>>)
 =============================================================================
